@@ -287,7 +287,7 @@ pub fn dispatch(line: &str) -> String {
         "W_UpdateRes" => <StrapTag as FileEntry>::call(&req),
         "SetSpeedTrainSim" => <SetSpeedTrainSimTag as FileEntry>::call(&req),
         "TrainState" => <TrainStateTag as FileEntry>::call(&req),
-        "BrakingPoints" => <BrakingPointTag as FileEntry>::call(&req),
+        "BrakingPoints" | "W_Recalc" => <BrakingPointTag as FileEntry>::call(&req),
         "TrainSimBuilder" => <TrainConfigTag as FileEntry>::call(&req),
         "SpeedLimitTrainSim" => <SpeedLimitTrainSimTag as FileEntry>::call(&req),
         "<free>" => run_free(&req),
